@@ -143,3 +143,16 @@ PROPS = {
    'outside': NET_OUT + '; HTML, text, Octave, SVG and SQL writers and read_html; escaping of identifiers (ids are written raw); compare-xyz and gama-local-deformation; the a posteriori setting in the writer (each outlier comparison is a 15 s nonlinear query)',
    'assumptions': NET_ASSUME + ['Normal((1-p)/2) uninterpreted but assumed within [1.9, 2.0] for p = 0.95', 'a symbolic number is printed as a reserved literal whatever the stream precision']},
 }
+
+# ---- plane networks (harness net2d) join the network-level properties ------------------------------------
+NET2D = {'harness': 'net2d', 'entry_points': ['GKFparser (obs: direction, distance, angle)', 'Acord2 / Orientation (approximate orientations and coordinates)',
+                                             'LocalLinearization::direction/distance/angle via LocalNetwork::project_equations', 'LocalNetwork::vyrovnani_ / null_space',
+                                             'AdjEnvelope/AdjCholDec/AdjGSO via LocalNetwork'], 'budget_s': {'quick': 900, 'thorough': 3000}}
+NET2D_BOUNDS = ('; plane networks (harness net2d): 5 points (rectangle 400 x 300 m and its centre: every distance rational, so the linearised system is exact), '
+                '18-24 directions in 4-5 sets, distances, angles; fixed/free/constrained patterns incl. free networks of defect 3 (with distances) and 4 (directions only); '
+                'symbolic errors |e| <= 1e-4 rad / 1 cm on every observation, the errors of one direction set in increasing order; first linearised adjustment only')
+NET2D_OUT = '; plane networks: re-linearisation iterations (TestLinearization on symbolic coordinates needs square roots of symbolic terms), other geometries (irrational distances: constants with many radical atoms), direction errors in another order within a set'
+for _pid, _site in {'C01': 'net2d-oracle', 'C02': 'net2d-oracle', 'C03': 'net2d-oracle', 'C05': 'net2d-oracle', 'C06': 'net2d-consistent', 'C07': 'net2d-equiv', 'C08': 'net2d-datum'}.items():
+    PROPS[_pid]['e1'].append(dict(NET2D)); PROPS[_pid]['must_reach'].append(_site)
+    PROPS[_pid]['bounds'] = PROPS[_pid]['bounds'] + NET2D_BOUNDS
+    PROPS[_pid]['outside'] = PROPS[_pid]['outside'] + NET2D_OUT
